@@ -42,7 +42,9 @@ def _ref_echo_guarded(tok):       # the same function as echo; ``value`` is hidd
 
 
 METHOD_MODELS['echo_guarded'] = R.MethodModel(inspect.signature(_ref_echo_guarded), _ref_echo_guarded)
-PUBLISHED_AS = {'echo_guarded': 'echo'}     # the function records its executions under its own name
+UNICODE_METHOD = '\u043d\u0435\u0442/none \u2713 \U0001F600'
+METHOD_MODELS[UNICODE_METHOD] = METHOD_MODELS['none']
+PUBLISHED_AS = {'echo_guarded': 'echo', UNICODE_METHOD: 'none'}     # the function records its executions under its own name
 from .ref import chain as _ref_chain  # noqa: E402
 _ref_chain.PUBLISHED_AS.update(PUBLISHED_AS)
 METHOD_MODELS['whoami'] = R.MethodModel(inspect.signature(_ref_whoami), _ref_whoami)
@@ -190,7 +192,12 @@ def respell(ch: Choices, doc: Any) -> str:
     how = ch.choice(['raw_unicode', 'indent', 'compact', 'escaped_names', 'escaped_solidus', 'padded', 'dup_before',
                      'dup_after', 'all_escaped'], 'respell.how')
     if how == 'raw_unicode':
-        return json.dumps(doc, ensure_ascii=False)
+        text = json.dumps(doc, ensure_ascii=False)
+        try:
+            text.encode('utf-8')
+        except UnicodeEncodeError:      # a lone surrogate can only travel as an escape
+            return json.dumps(doc)
+        return text
     if how == 'indent':
         return json.dumps(doc, indent=2)
     if how == 'compact':
@@ -378,8 +385,11 @@ def make_error_handler(w: World, node: str, hid: str, kind: str, is_async: bool)
             return JsonRpcError(code=error.code, message=error.message, data=f'annotated-{hid}')
         return error
 
+    # the shape of the callable the user registers: a function, a functools.partial, an instance with __call__, and (in
+    # asynchronous chains) a plain function that returns a Future instead of being a coroutine function
+    shape = w.ch.choice(['function', 'function', 'partial', 'callable', 'future'], 'srv.eh.shape_of_callable')
     if not is_async:
-        return body
+        return _shaped(body, shape if shape != 'future' else 'function')
 
     async def abody(request: Any, context: Any, error: Any) -> Any:
         tok = _tok_of(request)
@@ -387,7 +397,29 @@ def make_error_handler(w: World, node: str, hid: str, kind: str, is_async: bool)
             await asyncio.sleep(d)
             w.rec(node, 'eh.step', hid=hid, tok=tok)
         return body(request, context, error)
-    return abody
+    if shape == 'future':
+        def fbody(request: Any, context: Any, error: Any) -> Any:
+            return asyncio.ensure_future(abody(request, context, error))
+        return fbody
+    return _shaped(abody, shape)
+
+
+def _shaped(fn: Callable[..., Any], shape: str) -> Callable[..., Any]:
+    if shape == 'partial':
+        import functools
+        return functools.partial(fn)
+    if shape == 'callable':
+        if asyncio.iscoroutinefunction(fn):
+            class AsyncCallable:
+                async def __call__(self, *args: Any, **kwargs: Any) -> Any:
+                    return await fn(*args, **kwargs)
+            return AsyncCallable()
+
+        class Callable_:
+            def __call__(self, *args: Any, **kwargs: Any) -> Any:
+                return fn(*args, **kwargs)
+        return Callable_()
+    return fn
 
 
 def _jsonable(v: Any) -> Any:
@@ -506,6 +538,8 @@ class ServerUnderTest:
         from pjrpc.server.validators import BaseValidator
         guard = BaseValidator(exclude_param=lambda name, annotation, default: name == 'value')
         self.dispatcher.add(guard.validate(self.service.methods['echo']), name='echo_guarded')
+        # and one method under a name outside ASCII (Cyrillic, a space, a slash, a check mark, an astral-plane emoji)
+        self.dispatcher.add(self.service.methods['none'], name=UNICODE_METHOD)
 
     def redeploy(self) -> None:
         """Register a new generation of every function under the same names on the live dispatcher (a hot reload): from
